@@ -66,6 +66,23 @@ type Check struct {
 
 var checks = map[string]*Check{}
 
+// knownKeys: finding keys of the current property listed in known_findings.json. A monitor that hits
+// one records it (so that the coordinator prints KNOWN-FINDING) and lets the execution continue, so
+// that a listed finding never hides what lies behind it.
+var knownKeys = map[string]bool{}
+var knownHits = map[string]*Violation{}
+
+func hitKnown(key, detail string) bool {
+	if !knownKeys[key] {
+		return false
+	}
+	if _, ok := knownHits[key]; !ok {
+		clause, k := splitKey(key)
+		knownHits[key] = &Violation{Clause: clause, Key: k, Detail: detail}
+	}
+	return true
+}
+
 func register(c *Check) { checks[c.ID] = c }
 
 var (
@@ -85,6 +102,7 @@ func main() {
 	budget := flag.Int("budget", 0, "wall-clock budget in seconds (internal deadline, exit 0 with exhaustive:false)")
 	nworkers := flag.Int("j", 0, "worker processes")
 	list := flag.Bool("list", false, "list suites")
+	inproc := flag.Bool("inproc", false, "run the suites in this process and print their stats (debugging)")
 	flag.BoolVar(&flagVerbose, "v", false, "verbose")
 	flag.StringVar(&verifDir, "verif", "/verif", "verification directory")
 	flag.Parse()
@@ -105,6 +123,11 @@ func main() {
 		}
 	}
 	deadline = time.Now().Add(time.Duration(*budget) * time.Second)
+	for _, k := range loadKnown().Findings {
+		if k.Property == c.ID {
+			knownKeys[k.Key] = true
+		}
+	}
 	suites := c.Suites(*tier)
 	if *only != "" {
 		var f []*Suite
@@ -121,6 +144,16 @@ func main() {
 		}
 		return
 	}
+	if *inproc {
+		for _, s := range suites {
+			st := runSuite(s)
+			fmt.Fprintf(out, "suite %s execs=%d states=%d trans=%d outcomes=%d viol=%d capped=%v fatal=%q %.1fs\n", st.Name, st.Execs, st.States, st.Transitions, len(st.Outcomes), len(st.Violations), st.Capped, st.Fatal, st.WallS)
+			for _, v := range st.Violations {
+				fmt.Fprintf(out, "  VIOL %s choices=%v\n    %s\n", v.Key, v.Choices, strings.ReplaceAll(v.Detail, "\n", "\n    "))
+			}
+		}
+		return
+	}
 	if *worker != "" {
 		var i, n int
 		fmt.Sscanf(*worker, "%d/%d", &i, &n)
@@ -133,6 +166,13 @@ func main() {
 func runSuite(s *Suite) *SuiteStats {
 	t0 := time.Now()
 	st := &SuiteStats{Name: s.Name, Outcomes: map[string]int{}, Bound: s.Bound}
+	knownHits = map[string]*Violation{}
+	defer func() {
+		for _, v := range knownHits {
+			v.Suite = s.Name
+			st.Violations = append(st.Violations, *v)
+		}
+	}()
 	if s.Direct != nil {
 		s.Direct(st)
 		st.WallS = time.Since(t0).Seconds()
